@@ -547,8 +547,12 @@ def run(ctx, load):
     check_rb_operations(P, ctx)
     # the order of the tree is the key type's cmp: for the built-in scalar key types it must be the order of the values (a truncated or
     # overflowing difference is no order at all: a < b < c < a), or sorted iteration and lookup fail whatever the tree code does
-    from .rules_c09 import check_scalar_cmps
+    # no node pointer cached in the Tree record survives the release of its node (a remembered last lookup answers for a key that is gone;
+    # shared with C12)
+    from .rules_c12 import check_node_caches
     Pk = load(None, 'default')
+    ctx.borrow('C03.no-stale-node-cache', 1, lambda: check_node_caches(Pk, ctx), only=lambda o: 'Tree' in o['key'])
+    from .rules_c09 import check_scalar_cmps
     ctx.borrow('C03.key-order-is-an-order', 4, lambda: check_scalar_cmps(Pk, ctx))
     if ctx.tier == 'thorough':
         Pc = load(UNITS, 'ndebug')
